@@ -212,8 +212,9 @@ def parse_out(got):
     return shape, data + ld
 
 
-def corr(c, tier, rng):
-    n_trees = 70 if tier == "quick" else 600
+def corr(c, tier, rng, n_trees=None):
+    own = n_trees is None
+    n_trees = n_trees if n_trees is not None else (70 if tier == "quick" else 600)
     lines, wants, infos = [], [], []
     for ti in range(n_trees):
         shape = rng.choice(SHAPES)
@@ -241,6 +242,34 @@ def corr(c, tier, rng):
                 c.case((" ".join(node.tokens), m, tuple(xs)), node.nontrivial, sample={"op": line[:240], "impl": want} if ti < 2 and m == "tl" and rep == 0 else None)
         c.count("root:" + node.kind)
         c.count(f"rank{len(shape)}")
+        # slicing / indexing / len of a Chain never change the function: chain[i:j] is the chain of the sub-list
+        if node.kind == "CH" and len(node.children) >= 2:
+            k = len(node.children)
+            i = rng.randrange(0, k)
+            j = rng.randrange(i + 1, k + 1)
+            sub = node.children[i:j]
+            try:
+                sl = node.obj[i:j]
+                sub_cond = any(ch.cond for ch in sub)
+                if (sl.cond_shape is not None) != sub_cond or tuple(sl.shape) != tuple(shape) or len(node.obj) != k or node.obj[i] is not node.children[i].obj:
+                    c.mismatch("chain-slice-declared-shapes", tree=" ".join(node.tokens)[:200], slice=(i, j), cond_shape=sl.cond_shape, expected_conditional=sub_cond)
+                xs = [rng.uniform(-1, 1) for _ in range(size(shape))]
+                toks = ["CH", str(len(sub))] + sum((ch.tokens for ch in sub), [])
+                for m in ("t", "il"):
+                    try:
+                        want = fj.call(sl, m, np.reshape(xs, shape), jnp.asarray(cond) if sub_cond else None)
+                    except Exception as ex:
+                        want = ["EXC:" + type(ex).__name__ + ":" + str(ex)[:80]]
+                    line = f"atree {m} {f2b(cond)} {ints(shape)} {fs2b(xs)} " + " ".join(toks)
+                    lines.append(line); wants.append(want)
+                    infos.append(dict(kind="CH-slice", shape=shape, method=m, x=xs, cond=cond if sub_cond else None, tree=" ".join(toks)[:300]))
+                    c.case((" ".join(toks), "slice", m, tuple(xs)), True)
+                c.count("chain-slice")
+            except Exception as ex:
+                c.mismatch("chain-slice-declared-shapes", tree=" ".join(node.tokens)[:200], slice=(i, j), exc=repr(ex)[:200])
+    if own:
+        from props import c01
+        c01.scan_correspondence(c, tier, rng)
     outs = vlib.run_model(lines)
     for line, got, want, info in zip(lines, outs, wants, infos):
         if got.startswith("ERR") or any(isinstance(w, str) for w in want):
